@@ -344,7 +344,17 @@ func (ex *Exec) symAppendSlice(st *State, base Value, s *SymSliceV, t *types.Sli
 			}
 		}
 	}
-	ex.assumptions["append(a, b...) with b of unknown length: length and the elements of a are modelled, the copied elements of b are not"] = true
+	// the copied elements: r[len(a)+j] == b[j] for 0 <= j < len(b)
+	j := ex.ts.Fresh("q.j", BVSort(64))
+	in := ex.ts.And(ex.ts.BVCmp(OpBVSle, ex.ts.BV(0, 64), j), ex.ts.BVCmp(OpBVSlt, j, s.Len))
+	eq := ex.ts.True()
+	for k := range r.Arrs {
+		eq = ex.ts.And(eq, ex.ts.Eq(ex.ts.Select(r.Arrs[k], ex.ts.BVBin(OpBVAdd, b.Len, j)), ex.ts.Select(s.Arrs[k], j)))
+	}
+	ex.assume(st, ex.ts.Forall(j, ex.ts.Implies(in, eq)))
+	if b.Len.Op != OpConst || b.Len.BV > 16 {
+		ex.assumptions["append(a, b...) with a of unknown length: length and the elements of b are modelled, the elements of a are not"] = true
+	}
 	return r
 }
 func (ex *Exec) havocSymSlice(st *State, prefix string, t *types.Slice) Value {
